@@ -737,6 +737,41 @@ func (it *Interp) crcForgery(x, y Value) bool {
 	if !xs && !ys {
 		return false
 	}
+	// a checksum compared with a LITERAL of the program (e.g. "stored checksum == 0 means nothing written here") is
+	// program logic, not forged data: the ideal checksum is free to take that value, the solver decides, and the
+	// replay forges bytes whose real CRC-32 is that value (crcforge.go)
+	// ... provided the coverage holds 4 consecutive free value bytes, i.e. content with that CRC certainly exists and
+	// can be constructed; for shorter free content the special value almost surely does not exist: "different".
+	forgeable := func(v Value) bool {
+		t, ok := v.(*smt.Term)
+		if !ok {
+			return false
+		}
+		app := tab.byID[t]
+		if app == nil {
+			return false
+		}
+		run := 0
+		for _, a := range app.args {
+			if at, ok := a.(*smt.Term); ok && at.Op == smt.OpVar && at.W == 8 && !(len(at.Name) >= 3 && at.Name[:3] == "key") {
+				run++
+				if run >= 4 {
+					return true
+				}
+			} else {
+				run = 0
+			}
+		}
+		return false
+	}
+	if xs != ys {
+		if _, ok := x.(uint64); ok && !isRes(x) && isRes(y) && forgeable(y) {
+			return false
+		}
+		if _, ok := y.(uint64); ok && !isRes(y) && isRes(x) && forgeable(x) {
+			return false
+		}
+	}
 	return isRes(x) != isRes(y)
 }
 
